@@ -649,6 +649,12 @@ func TestC23(t *testing.T) {
 		runReaders(m, readers, in, "utctime-pivot", fmt.Sprintf("yy=%02d end=%v off=%s%02d%02d sec=%v", yy, end, sign, a/60, a%60, withSec))
 	})
 
+	// ---- one destination variable reused across a SEQUENCE of elements ----
+	seqM := seqMethods()
+	m.Cases("reused-variable-sequences", m.N(2600, 130000), func(i int64, r *rand.Rand) {
+		checkSequence(m, i, r, seqM)
+	})
+
 	// ---- Add* builders emit DER ----
 	m.Cases("builders", m.N(6000, 300000), func(i int64, r *rand.Rand) {
 		checkBuilders(m, i, r)
@@ -676,6 +682,9 @@ func TestC23(t *testing.T) {
 	m.Gate("utctime_pivot_straddling_2050", m.N(100, 2000), "UTCTime with a numeric differential whose UTC instant and local year digits lie on different sides of 2050-01-01T00:00Z")
 	m.Gate("value-checked-in-class:offset-instead-of-Z", 200, "value of an accepted time with a numeric differential compared with the reference")
 	m.Gate("value-checked-in-class:no-seconds+offset-instead-of-Z", 100, "same, without seconds")
+	m.Gate("prestate_same_result_on_success", m.N(100000, 5000000), "successful reads repeated into a garbage-filled destination with identical result")
+	m.Gate("prestate_failures_observed", m.N(500000, 25000000), "failing reads repeated into a garbage-filled destination")
+	m.Gate("sequence_reads_into_reused_variable", m.N(50000, 2500000), "elements of a SEQUENCE decoded into one reused variable and compared with the reference")
 	m.Gate("aliased_values_held", m.N(20000, 1000000), "slices sharing memory with the String re-checked after later reads")
 	m.Gate("builder_args_checked", m.N(10000, 500000), "Add* arguments verified unchanged")
 	m.Gate("builder_outputs_checked", m.N(20000, 1000000), "AddASN1* outputs compared with the reference encoder")
@@ -690,12 +699,12 @@ func runReaders(m *mon.M, readers []reader, in []byte, kindName, mutName string)
 	// readers get a private copy followed by sentinel-filled spare capacity: they must not write through either
 	backing := newGuarded(in)
 	cp := backing[:len(in)]
-	for _, rd := range readers {
+	for ri, rd := range readers {
 		p := rd.pred(in)
 		var ok bool
 		var val string
 		var rest []byte
-		pv, stack := mon.Panics(func() { ok, val, rest = rd.run(cp) })
+		pv, stack := mon.Panics(func() { ok, val, rest = rd.run(cp, 0) })
 		m.Eval()
 		wit := func() map[string]any {
 			return map[string]any{"reader": rd.name, "input": mon.FullHex(trunc(in)), "input_len": len(in), "kind": kindName, "mutation": mutName,
@@ -711,6 +720,37 @@ func runReaders(m *mon.M, readers []reader, in []byte, kindName, mutName string)
 			m.Violation("reader-modified-input:"+rd.name, wit())
 			backing = newGuarded(in)
 			cp = backing[:len(in)]
+		}
+		// out-parameter pre-state: the same call into a destination pre-filled with garbage (all-ones / long previous
+		// content, alternating per input and reader) must report the same ok and leave the same value and remainder
+		{
+			pre := 1 + (len(in)+ri)%2
+			method := strings.TrimSuffix(strings.TrimSuffix(rd.name, "(own-tag)"), "(other-tag)")
+			var ok2 bool
+			var val2 string
+			var rest2 []byte
+			pv2, stack2 := mon.Panics(func() { ok2, val2, rest2 = rd.run(cp, pre) })
+			m.Count(fmt.Sprintf("prestate_runs:%d", pre), 1)
+			switch {
+			case pv2 != nil:
+				w := wit()
+				w["panic"], w["prestate"] = fmt.Sprint(pv2), pre
+				m.Violation("panic:"+mon.PanicSite(stack2), w)
+			case ok2 != ok || (ok && (val2 != val || len(rest2) != len(rest))):
+				w := wit()
+				w["prestate"], w["ok_with_prestate"], w["value_with_prestate"] = pre, ok2, truncS(val2)
+				m.Violation("out-param-prestate-leaks:"+method, w)
+			case ok:
+				m.Count("prestate_same_result_on_success", 1)
+			default:
+				// both failed: note (not judged) whether the destination was written although the read failed;
+				// baseline = the same call on an input that fails before anything is decoded
+				bok, bval, _ := rd.run(cp[:min(1, len(cp))], pre)
+				if !bok && bval != val2 {
+					m.Count("destination-modified-on-failure(not judged):"+method, 1)
+				}
+				m.Count("prestate_failures_observed", 1)
+			}
 		}
 		// encoding/asn1 as second witness for the value (never for acceptance)
 		var sok bool
